@@ -44,6 +44,10 @@ KVS == {[A0 EXCEPT !.k = k, !.vs = vs] : k \in Keys, vs \in ValLists}
 IX  == {[A0 EXCEPT !.idx = i] : i \in Idxs}
 IKV == {[A0 EXCEPT !.idx = i, !.k = k, !.v = v] : i \in Idxs, k \in Keys, v \in Vals}
 IK  == {[A0 EXCEPT !.idx = i, !.k = k] : i \in Idxs, k \in Keys}
+SliceEnds == {0, 1, 0 - 1, MaxEnt + 1}            \* boundary slice indices
+IJ  == {[A0 EXCEPT !.idx = i, !.idx2 = j] : i \in {0, 1, 0 - 1}, j \in SliceEnds}
+IJS == {[A0 EXCEPT !.idx = i, !.idx2 = j, !.src = s] : i \in {0, 1, 0 - 1}, j \in SliceEnds,
+                                                       s \in {<<>>} \cup {<< <<k, <<V0>>>> >> : k \in Keys}}
 Ops(names, args) == {OA(n, a) : n \in names, a \in args}
 
 MdOps == Ops({"setitem", "add", "setdefault"}, KV) \cup Ops({"delitem", "poplist"}, K1) \cup Ops({"pop"}, KD)
@@ -52,6 +56,7 @@ MdOps == Ops({"setitem", "add", "setdefault"}, KV) \cup Ops({"delitem", "poplist
 HdOps == Ops({"set", "setitem", "add", "setdefault"}, KV) \cup Ops({"remove", "delitem"}, K1) \cup Ops({"pop"}, KD)
          \cup Ops({"setlist", "setlistdefault"}, KVS) \cup Ops({"pop_last", "popitem", "clear"}, {A0})
          \cup Ops({"pop_idx", "delitem_idx"}, IX) \cup Ops({"setitem_idx"}, IKV)
+         \cup Ops({"delitem_slice"}, IJ) \cup (IF SrcMode = "small" THEN {} ELSE Ops({"setitem_slice"}, IJS))
          \cup Ops({"extend", "update"}, HdSrcArgs) \cup Ops({"ior", "or"}, OrArgs(HdSrcArgs))
 HsOps == Ops({"add", "remove", "discard"}, K1) \cup Ops({"clear"}, {A0}) \cup Ops({"delitem_idx"}, IX)
          \cup Ops({"setitem_idx"}, IK)
@@ -62,10 +67,6 @@ OpArgs == CASE Kind \in {"MultiDict", "ImmutableMultiDict"} -> MdOps
 
 Within(st) == /\ Len(st) <= MaxEnt
               /\ Kind \in {"MultiDict", "ImmutableMultiDict"} => \A i \in 1..Len(st) : Len(st[i][2]) <= MaxList
-\* item assignment that would leave a HeaderSet with two case-equal items is outside the model
-Modelled(oa) == ~(Kind = "HeaderSet" /\ oa.name = "setitem_idx" /\ IdxOK(oa.a.idx, Len(obj))
-                  /\ ~HsAssignOK(obj, PyIdx(oa.a.idx, Len(obj)) + 1, oa.a.k))
-
 \* initial states: every constructor input of the bounded alphabet
 CtorArgs == IF Kind = "HeaderSet" THEN {[A0 EXCEPT !.vs = xs] : xs \in SeqsUpTo(Keys, MaxList)}
             ELSE SrcArgs
@@ -73,7 +74,7 @@ Init == \E c \in CtorArgs : /\ obj = Ctor(Kind, c) /\ Within(obj)
                             /\ act = [name |-> "new", a |-> c, ret |-> RNone]
 Next == \E oa \in OpArgs :
           LET r == Apply(Kind, obj, oa.name, oa.a) IN
-          /\ Modelled(oa) /\ Within(r.st)
+          /\ Within(r.st)
           /\ obj' = r.st
           /\ act' = [name |-> oa.name, a |-> oa.a, ret |-> r.ret]
 Spec == Init /\ [][Next]_vars
@@ -134,11 +135,26 @@ Post ==
               \A k \in Keys : GL(obj', k) = GL(obj, k) \o GL(MdFromPairs(Flatten(a.src)), k)
          /\ n = "extend" /\ Kind = "Headers" => \A k \in Keys : GL(obj', k) = GL(obj, k) \o HdVals(Flatten(a.src), k)
          /\ n = "or" => obj' = obj
+         /\ n \in {"delitem_slice", "setitem_slice"} /\ Kind = "Headers" =>     \* stated through the slice reads h[:i], h[i:j], h[j:]
+              LET new == IF n = "setitem_slice" THEN Flatten(a.src) ELSE <<>> IN
+              obj' = IF PySlice(obj, a.idx, a.idx2) = <<>>
+                       THEN PySlice(obj, 0, a.idx) \o new \o PySlice(obj, a.idx, Len(obj))        \* empty slice: insert at i
+                       ELSE PySlice(obj, 0, a.idx) \o new \o PySlice(obj, a.idx2, Len(obj))
          /\ ~ok => obj' = obj \/ n \in {"pop", "popitem"}       \* failed calls change nothing (pop* of an empty-list entry removes it)
     [] Kind = "HeaderSet" ->
          /\ n = "add" => HsHas(obj', a.k) /\ (HsHas(obj, a.k) => obj' = obj) /\ (~HsHas(obj, a.k) => obj' = Append(obj, a.k))
          /\ n \in {"remove", "discard"} => ~HsHas(obj', a.k) /\ \A x \in Keys : Lower(x) # Lower(a.k) => (HsHas(obj', x) <=> HsHas(obj, x))
          /\ n = "remove" => (ok <=> HsHas(obj, a.k))
+         /\ n = "setitem_idx" => (ok <=> IdxOK(a.idx, Len(obj)))
+         /\ n = "setitem_idx" /\ ok =>            \* position i holds the assigned item, once; the rest keeps its order
+              LET p == PyIdx(a.idx, Len(obj)) + 1
+                  dup == ~HsAssignOK(obj, p, a.k)              \* another member has that name
+                  q == HsFind(obj', a.k)                       \* where the item is afterwards
+              IN /\ HsHas(obj', a.k) /\ obj'[q] = a.k
+                 /\ Len(obj') = Len(obj) - (IF dup THEN 1 ELSE 0)
+                 /\ q = (IF dup /\ HsFind(obj, a.k) < p THEN p - 1 ELSE p)
+                 /\ \A x \in Keys : (Lower(x) # Lower(a.k) /\ Lower(x) # Lower(obj[p])) => (HsHas(obj', x) <=> HsHas(obj, x))
+                 /\ (Lower(obj[p]) # Lower(a.k)) => ~HsHas(obj', obj[p])
          /\ ~ok => obj' = obj
 PostSpec == [][Post]_vars
 
